@@ -49,6 +49,92 @@ func sameField(f common.C15Field) bool {
 	return f.Dest == f.Src || strings.HasSuffix(f.Dest, "."+f.Src) || strings.HasSuffix(f.Src, "."+f.Dest)
 }
 
+func destOf(f common.C15Field) string {
+	if f.Dest != "" {
+		return f.Dest
+	}
+	return f.Src
+}
+
+// rpnLean turns a reverse-Polish condition into a Lean `Cond` term.
+func rpnLean(toks []string) string {
+	var st []string
+	pop := func() string {
+		if len(st) == 0 {
+			return ".opaque"
+		}
+		x := st[len(st)-1]
+		st = st[:len(st)-1]
+		return x
+	}
+	for _, t := range toks {
+		switch {
+		case strings.HasPrefix(t, "f:"):
+			st = append(st, fmt.Sprintf("(.fld %q)", t[2:]))
+		case strings.HasPrefix(t, "l:"):
+			st = append(st, fmt.Sprintf("(.len %q)", t[2:]))
+		case strings.HasPrefix(t, "s:"):
+			st = append(st, fmt.Sprintf("(.strOf %q)", t[2:]))
+		case strings.HasPrefix(t, "c:"):
+			st = append(st, "(.cst "+lconst(common.C15ParseToken(t[2:]))+")")
+		case t == "and" || t == "or":
+			b, a := pop(), pop()
+			st = append(st, fmt.Sprintf("(.%s %s %s)", t, a, b))
+		case t == "not":
+			st = append(st, fmt.Sprintf("(.not %s)", pop()))
+		case t == "tru":
+			a := pop()
+			st = append(st, "(.tru "+strings.TrimSuffix(strings.TrimPrefix(a, "(.fld "), ")")+")")
+		case t == "opq":
+			st = append(st, ".opaque")
+		case t == "opqc":
+			st = append(st, ".opaqueConst")
+		default: // comparison
+			b, a := pop(), pop()
+			st = append(st, fmt.Sprintf("(.cmp %s .%s %s)", a, t, b))
+		}
+	}
+	return pop()
+}
+
+func lval(k string, c common.C15Const, ty string) []string {
+	switch c.Kind {
+	case "int", "dur":
+		return []string{fmt.Sprintf("(%q, .int (%d))", "f:"+k, c.I)}
+	case "bool":
+		return []string{fmt.Sprintf("(%q, .bool %s)", "f:"+k, lbool(c.I != 0))}
+	case "str":
+		return []string{fmt.Sprintf("(%q, .str %s)", "f:"+k, strconv.Quote(strings.TrimPrefix(c.Token(), "str:")))}
+	case "float":
+		if lo, hi, ok := common.C15Frac(c.S); ok {
+			return []string{fmt.Sprintf("(%q, .frac (%d) (%d))", "f:"+k, lo, hi)}
+		}
+	case "nil":
+		if ty == "list" || ty == "map" {
+			return []string{fmt.Sprintf("(%q, .nil)", "f:"+k), fmt.Sprintf("(%q, .int 0)", "l:"+k)}
+		}
+		return []string{fmt.Sprintf("(%q, .nil)", "f:"+k)}
+	case "empty":
+		return []string{fmt.Sprintf("(%q, .nonnil)", "f:"+k), fmt.Sprintf("(%q, .int 0)", "l:"+k)}
+	}
+	return nil
+}
+
+func codecName(c string) string {
+	if c == "" {
+		return "none"
+	}
+	return c
+}
+
+func lpairs(l [][2]string) string {
+	var o []string
+	for _, p := range l {
+		o = append(o, fmt.Sprintf("(%q, %q)", p[0], p[1]))
+	}
+	return "[" + strings.Join(o, ", ") + "]"
+}
+
 func lbool(b bool) string {
 	if b {
 		return "true"
@@ -165,6 +251,9 @@ func main() {
 			for _, f := range s.Fields {
 				fmt.Printf("  %-45s %-8s jt=%-22s load=%-22s save=%-16s dest=%-32s def=%-22s omit=%-12s oe=%v hid=%v rej=%s\n", f.JSONPath(), f.Ty, f.JType, f.Load, f.Save, f.Dest+"|"+f.Src, f.Default.Token(), f.OmitConst.Token(), f.OmitEmpty, f.Hidden, common.C15SortedRej(f.Rej))
 			}
+			for _, c := range s.VConj {
+				fmt.Printf("  W %s   :: %s\n", c.Encode(), c.Text)
+			}
 			for _, c := range s.Validate {
 				fmt.Printf("  V guard=%q opaque=%v %s %s %s :: %s\n", c.Guard, c.Opaque, c.Field, c.Op, c.Const.Token(), c.Text)
 			}
@@ -196,8 +285,8 @@ func main() {
 			if i == len(s.Fields)-1 {
 				sep = ""
 			}
-			fmt.Fprintf(&b, "  { sec := %q, path := %q, key := %q, env := %q, ty := .%s, omitEmpty := %s, hidden := %s, sameField := %s, load := .%s, save := .%s, dflt := %s, omitC := %s, rej := [%s] }%s\n",
-				s.Name, f.JSONPath(), f.Path[len(f.Path)-1], f.EnvName(s.EnvPrefix), f.Ty, lbool(f.OmitEmpty), lbool(f.Hidden), lbool(sameField(f)), f.Load, f.Save, lconst(f.Default), lconst(f.OmitConst), strings.Join(rej, ", "), sep)
+			fmt.Fprintf(&b, "  { sec := %q, path := %q, key := %q, env := %q, ty := .%s, omitEmpty := %s, hidden := %s, sameField := %s, load := .%s, save := .%s, dflt := %s, omitC := %s, rej := [%s], codec := .%s, dest := %q, hiddenNested := %s }%s\n",
+				s.Name, f.JSONPath(), f.Path[len(f.Path)-1], f.EnvName(s.EnvPrefix), f.Ty, lbool(f.OmitEmpty), lbool(f.Hidden), lbool(sameField(f)), f.Load, f.Save, lconst(f.Default), lconst(f.OmitConst), strings.Join(rej, ", "), codecName(f.Codec), destOf(f), lbool(f.HiddenNested), sep)
 		}
 		b.WriteString("]\n\n")
 	}
@@ -219,6 +308,50 @@ func main() {
 			s.Name, s.EnvPrefix, lbool(fc.endsValidate), lbool(fc.startsDefault), len(s.Validate), nop, sep)
 	}
 	b.WriteString("]\n\n")
+	b.WriteString("/-- Validate() of every section as conjuncts, and the Config values Default() gives as far as they are evident -/\ndef validates : List (String × List Conj × Env) := [\n")
+	for i, s := range secs {
+		var cs, env []string
+		for _, c := range s.VConj {
+			g := "none"
+			if len(c.Guard) > 0 {
+				g = "(some " + rpnLean(c.Guard) + ")"
+			}
+			cs = append(cs, fmt.Sprintf("    { guard := %s, cond := %s }", g, rpnLean(c.Cond)))
+		}
+		seen := map[string]bool{}
+		for _, f := range s.Fields {
+			d := destOf(f)
+			if d == "" || seen[d] {
+				continue
+			}
+			seen[d] = true
+			env = append(env, lval(d, f.Default, f.Ty)...)
+		}
+		sep := ","
+		if i == len(secs)-1 {
+			sep = ""
+		}
+		fmt.Fprintf(&b, "  (%q, [\n%s],\n    [%s])%s\n", s.Name, strings.Join(cs, ",\n"), strings.Join(env, ", "), sep)
+	}
+	b.WriteString("]\n\n")
+	b.WriteString("/-- enumerations: the load `switch` (JSON text, constant) and the `String()` method (constant, JSON text) -/\ndef enums : List (String × List (String × String) × List (String × String)) := [\n")
+	first := true
+	for _, s := range secs {
+		if len(s.EnumLoad) == 0 {
+			continue
+		}
+		if !first {
+			b.WriteString(",\n")
+		}
+		first = false
+		fmt.Fprintf(&b, "  (%q, %s, %s)", s.Name, lpairs(s.EnumLoad), lpairs(s.EnumSave))
+	}
+	b.WriteString("\n]\n\n")
+	var lens []string
+	for _, n := range common.C15SecretLens(repo) {
+		lens = append(lens, strconv.Itoa(n))
+	}
+	fmt.Fprintf(&b, "/-- byte lengths DecodeClusterSecret accepts after hex decoding (0 = no secret) -/\ndef secretLens : List Nat := [%s]\n\n", strings.Join(lens, ", "))
 	fmt.Fprintf(&b, "/-- config.DisplayJSON replaces every field tagged hidden:\"true\" by a constant -/\ndef displayReplacesHidden : Bool := %s\n\n", lbool(hid))
 	fmt.Fprintf(&b, "/-- config.Manager.LoadJSON ends with `return cfg.Validate()` -/\ndef managerLoadEndsWithValidate : Bool := %s\n\n", lbool(mgrValidates))
 	b.WriteString("end CV.C15.Gen\n")
